@@ -10,7 +10,10 @@ def fmt(name, text):
     return Fn(FB, name, impl=BI, impl_header="BitVec", slot="util", mode="stub", ret="res", key="BitVec::" + name, ensures=[C("the_text_of_this_format", text)])
 
 
+FBV = "src/util/bitvec.rs"
 stubs = [
+    Fn(FBV, "len", impl="BitVec", impl_header="BitVec", slot="util", mode="stub", ret="res", key="BitVec::len"),
+    Fn(FBV, "to_bigint", impl="BitVec", impl_header="BitVec", slot="util", mode="stub", ret="res", key="BitVec::to_bigint"),
     fmt("format_binary", "res@ == bytes_binary(*self)"),
     fmt("format_binstr", "res@ == text_binstr(*self)"),
     fmt("format_hexstr", "res@ == text_hexstr(*self)"),
@@ -36,9 +39,42 @@ format_output = Fn(FD, "format_output", slot="driver", ret="res", key="driver::f
     inserts=[Insert("\tlet text = {", '\tproof { reveal_strlit(", "); reveal_strlit(" "); }\n', where="before", why="the texts of the two separator literals")],
 )
 
+FA = "src/asm/mod.rs"
+assemble = Fn(FA, "assemble", slot="asm", mode="stub", ret="res", key="asm::assemble",
+    ensures=[C("a_failed_assembly_left_a_message", "(res.error || res.output is None) ==> final(report).msgs() > 0"),
+             C("a_successful_one_carries_its_tables", "res.output is Some ==> res.decls is Some && res.defs is Some && res.iterations_taken is Some"),
+             C("nothing_is_written_while_assembling", "final(fileserver).written() == old(fileserver).written()")])
+result_new = Fn(FA, "new", impl="AssemblyResult", slot="asm", mode="stub", ret="res", key="AssemblyResult::new")
+print_usage = Fn(FD, "print_usage", slot="driver", mode="stub", key="driver::print_usage")
+print_vs = Fn(FD, "print_version_short", slot="driver", mode="stub", key="driver::print_version_short")
+print_vf = Fn(FD, "print_version_full", slot="driver", mode="stub", key="driver::print_version_full")
+r_error = Fn("src/diagn/report.rs", "error", impl="Report", slot="diagn", mode="stub", key="Report::error", ensures=[C("one_more_message", "final(self).msgs() == old(self).msgs() + 1")])
+FILES = "group_files(command.output_groups@, %s, %s, %s)"
+with_command = Fn(FD, "assemble_with_command", slot="driver", ret="res", key="driver::assemble_with_command", props=["C18", "C03"],
+    ensures=[
+        C("failure_is_loud", "res is Err ==> final(report).msgs() > 0", ["C03"]),
+        C("help_and_version_write_nothing", "(command.show_help || command.show_version) ==> res is Ok && final(fileserver).written() == old(fileserver).written() && *final(report) == *old(report)", ["C18"]),
+        C("every_group_writes_exactly_its_own_file_in_order", "res is Ok && !command.show_help && !command.show_version ==> (res->Ok_0).output is Some && (res->Ok_0).decls is Some && final(fileserver).written() == old(fileserver).written() + "
+          + FILES % ("command.output_groups@.len() as int", "(res->Ok_0).output->0", "((res->Ok_0).decls->0).symbols"), ["C18", "C03"]),
+    ],
+    for_to_while=[1, 2],
+    rewrites=[
+        Rewrite(r"println!\((?:[^;]|;(?!\n))*?\);\n", "verif_println();\n", regex=True, count=None, rule="R16", why="console output -> a call without effect on any contract (the text printed is not specified)"),
+        Rewrite(r"assembly\.output\s*\.as_ref\(\)\s*\.ok_or\(\(\)\)\?", "verif_some_or_err(&assembly.output)?", regex=True, rule="R16", why="`OPTION.as_ref().ok_or(())?` -> prelude function (proved: the content, or Err for None)"),
+        Rewrite(r"assembly\.(\w+)\.as_ref\(\)\.unwrap\(\)", r"verif_some_ref(&assembly.\1)", regex=True, count=2, rule="R16", why="`OPTION.as_ref().unwrap()` -> prelude function that requires `is Some`"),
+    ],
+    loops={
+        1: Loop(invariant=[C("nothing_happens", "verif_next_1 <= verif_vec_1@.len()")], decreases="verif_vec_1@.len() - verif_next_1"),
+        2: Loop(invariant=[
+            C("files_so_far", "verif_vec_2@ == command.output_groups@ && verif_next_2 <= verif_vec_2@.len() && fileserver.written() == old(fileserver).written() + " + FILES % ("verif_next_2 as int", "*output", "decls.symbols")),
+            C("frame", "assembly.output == Some(*output) && assembly.decls == Some(*decls)"),
+        ], decreases="verif_vec_2@.len() - verif_next_2"),
+    },
+)
+
 UNIT = Unit(
     "U-dispatch", "u_dispatch/skeleton.rs",
-    items=stubs + [Type(FD, "enum", "OutputFormat", slot="driver", derive="Clone, Copy"), format_output],
-    serves=["C18", "C11", "C12"],
+    items=stubs + [r_error, Type(FA, "struct", "AssemblyResult", slot="asm"), assemble, result_new, Type(FD, "enum", "OutputFormat", slot="driver", derive="Clone, Copy"), Type(FD, "struct", "Command", slot="driver"), Type(FD, "struct", "CommandOutput", slot="driver"), print_usage, print_vs, print_vf, format_output, with_command],
+    serves=["C18", "C11", "C12", "C03"],
     description="driver::format_output: which formatter renders which output format, with which parameters",
 )
